@@ -387,8 +387,10 @@ class Check(object):
         cov = self.cov
         if extra_cov:
             cov.update(extra_cov)
-        for fid, (f, n) in sorted(self.known_hits.items()):
-            print('KNOWN-FINDING: property=%s %s [%s] (%d cases this run)' % (self.pid, f['what'], fid, n))
+        for f in self.findings:
+            n = self.known_hits.get(f['id'], (f, 0))[1]
+            print('KNOWN-FINDING: property=%s %s [%s] (%s)' % (self.pid, f['what'], f['id'],
+                  '%d cases this run' % n if n else 'not exercised by this run'))
         cov['known_findings_fired'] = sorted(self.known_hits)
         rdir = os.path.join(VERIF, 'replays', self.pid)
         paths = []
